@@ -328,7 +328,7 @@ BR_CONTENTS = ["", "a", "hello", "]", "]]x", "a]b", "]x", "x]", "[", "[[", "\"",
                "{x}", "{", "}", "\\n", ";", "(", "]=", "]==", "#[[", "é", "日本\U0001F600", "]f", "f]"]
 FLIT = ["", "a", "abc ", " x ", "{{", "}}", "{{x}}", "\\n", "\\\\", "\\\"", "\\x41", "\\N{DIGIT ONE}", "é", "(", ")", ";", "'", "~",
         "a\nb", "\r\n", "#", ":", "!", "="]
-FSPEC = ["", ">", ">10", "^8", ".2f", "x", " ", "0>5", "{{", "}}", "\\n", "é"]
+FSPEC = ["", ">", ">10", "^8", ".2f", "x", " ", "0>5", "{{", "\\n", "é"]
 
 
 class Gen:
@@ -475,6 +475,8 @@ class Render:
             fld = self._field()
             if fld is not None and (fld[1] == "head" or (fld[1] == "form" and inside_atom)):
                 why = "field"
+                if inside_atom and tokprefix is not None and "." in tokprefix:
+                    why = "field+dotted"
             elif inside_atom and tokprefix is not None and "." in tokprefix:
                 why = "dotted"
             return ("open", why)
@@ -495,7 +497,7 @@ class Render:
         """(re)label the cut point at the current end from the current stack"""
         self.labels[len(self.out)] = self._label(False)
 
-    def form_done(self, counts=True):
+    def form_done(self):
         """a form has just been completed: resolve pending prefixes, count top-level forms"""
         while self.stack and self.stack[-1][0] == "prefix":
             f = self.stack[-1]
@@ -504,10 +506,13 @@ class Render:
                 self.mark()
                 return
             self.stack.pop()
-            counts = f[2]
+            if not f[2]:
+                # a discard: its operand is dropped, nothing has been completed for the enclosing construct
+                self.mark()
+                return
         if self.stack and self.stack[-1][0] == "field" and self.stack[-1][1] == "form":
             self.stack[-1][1] = "head"
-        if not self.stack and counts:
+        if not self.stack:
             self.ntop += 1
         self.mark()
 
